@@ -383,7 +383,7 @@ def inputs_for(ctx, fmt, mn, mx, step, rng):
                 out.append(s)
     out += ["1e3", "2.5E1", "+7", "-0", "007", ".5", "5.", "1e400", "-1e400", "1e-400", True, False]
     out += GARBAGE + AMBIGUOUS + [float("nan"), float("inf"), float("-inf")]
-    for _ in range(ctx.pick(6, 60)):
+    for _ in range(ctx.pick(6, 500)):
         kind = rng.random()
         if kind < 0.3:
             out.append(rng.randint(int(lo) - 10, int(hi) + 10))
